@@ -103,7 +103,7 @@ Proof.
 Qed.
 
 Section P.
-  Variable avc_parse : str -> option (N * N * (N * N * N)).
+  Variable avc_parse : str -> option avc_info.
   Variable hevc_parse : str -> option (N * N * list N).
 
   Ltac brk H :=
@@ -114,23 +114,26 @@ Section P.
   (* ---- AVC *)
   Lemma set_avc_ok t name spss ppss incl t' :
     set_avc avc_parse t name spss ppss incl = (OOk, t') ->
-    exists sps0 rest w h p c l,
-      spss = sps0 :: rest /\ avc_parse sps0 = Some (w, h, (p, c, l))
+    exists sps0 rest w h p c l cf bl bc,
+      spss = sps0 :: rest /\ avc_parse sps0 = Some (w, h, (p, c, l, (cf, bl, bc)))
+      /\ cf <= 3 /\ bl <= 7 /\ bc <= 7
       /\ (name = BS "avc1" \/ name = BS "avc3")
       /\ sd_entries t' = sd_entries t ++
            [mkSE name 1 (w mod 65536) (h mod 65536) 0
-                 (CfgAvcC (mkAvcC p c l (if incl then spss else []) (if incl then ppss else [])))]
+                 (CfgAvcC (mkAvcC p c l (if incl then spss else []) (if incl then ppss else []) cf bl bc))]
       /\ tk_width t' = (w * 65536) mod 4294967296 /\ tk_height t' = (h * 65536) mod 4294967296
       /\ core t' = core t.
-  Proof.
-    unfold set_avc, create_avcc. intros H.
+  Proof using avc_parse.
+    clear hevc_parse. unfold set_avc, create_avcc. intros H.
     destruct (negb (is_one_of name _)) eqn:Hname; [discriminate|].
     destruct (str_eqb name _ && negb incl) eqn:H1; [discriminate|].
     destruct spss as [|sps0 rest]; [discriminate|].
-    destruct (avc_parse sps0) as [[[w h] [[p c] l]]|] eqn:Hp; [|discriminate].
+    destruct (avc_parse sps0) as [[[w h] [[[p c] l] [[cf bl] bc]]]|] eqn:Hp; [|discriminate].
+    destruct ((3 <? cf) || (7 <? bl) || (7 <? bc)) eqn:Hfit; [discriminate|].
     inversion H; subst; clear H.
-    exists sps0, rest, w, h, p, c, l.
-    split; [reflexivity|]. split; [exact Hp|]. split.
+    exists sps0, rest, w, h, p, c, l, cf, bl, bc.
+    split; [reflexivity|]. split; [exact Hp|].
+    split; [lia|]. split; [lia|]. split; [lia|]. split.
     { apply negb_false_iff in Hname. unfold is_one_of in Hname. cbn [existsb] in Hname.
       rewrite orb_false_r in Hname. apply orb_prop in Hname. destruct Hname as [E|E]; apply str_eqb_eq in E; auto. }
     split; [destruct incl; reflexivity|]. repeat split; reflexivity.
@@ -231,7 +234,7 @@ Section P.
   Proof.
     destruct d as [name spss ppss incl|name vpss spss ppss seis incl|o f|d|d|c|a b c]; cbn [set_desc].
     - destruct (set_avc avc_parse t name spss ppss incl) as [oc t'] eqn:H. destruct oc.
-      + apply set_avc_ok in H. destruct H as (?&?&?&?&?&?&?&_&_&_&He&_). eexists. split; [exact He|reflexivity].
+      + apply set_avc_ok in H. destruct H as (?&?&?&?&?&?&?&?&?&?&_&_&_&_&_&_&He&_). eexists. split; [exact He|reflexivity].
       + unfold set_avc, create_avcc in H. brk H; inversion H; reflexivity.
       + unfold set_avc, create_avcc in H. brk H; inversion H; reflexivity.
     - destruct (set_hevc hevc_parse t name vpss spss ppss seis incl) as [oc t'] eqn:H. destruct oc.
